@@ -700,6 +700,8 @@ def gen_cases(rng, tier, vals, flag):
 def model_line(c, out, vals):
     """model input line for case c given the implementation output `out` (needed for traces / timer state); None = no model run"""
     fam = c["fam"]
+    if out.startswith("SKIPPED"):
+        return None
     if out == "TIMEOUT" or out.startswith("NONREPRO") or out.startswith("UN") or out.startswith("BAD"):
         if fam in ("lcg", "ring", "poly", "edge"):
             pass
@@ -1047,28 +1049,35 @@ def main(tier, replay=None):
         return chk.finish()
     # the per-case limit is CPU time of the harness process (ITIMER_PROF), so it does not depend on the load of the machine; a
     # TIMEOUT is nevertheless confirmed by running the case again with 25 times the limit before it is reported
-    tmo = [i for i, o in enumerate(iout) if o == "TIMEOUT" and cases[i]["fam"] != "edge"] if (rc == 0 and len(iout) == len(cases)) else []
-    # (edge cases run in forked children with their own budget; a TIMEOUT there is confirmed below with a 5x budget)
-    etmo = [i for i, o in enumerate(iout) if o == "TIMEOUT" and cases[i]["fam"] == "edge"] if (rc == 0 and len(iout) == len(cases)) else []
-    if etmo:
-        rc3, o3, _ = vf.run_lines(himpl, "".join(cases[i]["line"].replace("fork 400 ", "fork 2000 ", 1) + "\n" for i in etmo), timeout=900, args=["%d" % LIMIT_MS])
-        if rc3 == 0 and len(o3) == len(etmo):
-            for i, o in zip(etmo, o3):
-                iout[i] = o
-    if tmo:
-        todo, back = tmo[:10], 0
-        while todo:
-            rc2, o2, _ = vf.run_lines(himpl, "".join(cases[i]["line"] + "\n" for i in todo), timeout=1500, args=["%d" % (LIMIT_MS * 25)])
-            if rc2 != 0 or len(o2) != len(todo):
-                break
-            came_back = [i for i, o in zip(todo, o2) if o != "TIMEOUT"]
-            for i, o in zip(todo, o2):
-                iout[i] = o
-            back += len(came_back)
-            rest = [i for i in tmo if i not in todo and iout[i] == "TIMEOUT"]
-            todo = rest[:40] if (came_back and todo != rest) else []       # only when the short limit proved too short for some case
-            tmo = [i for i in tmo if i not in came_back]
-        chk.cov["timeouts"] = {"first_pass": len(tmo) + back, "returned_with_25x_limit": back, "limit_ms_cpu": LIMIT_MS}
+    # hang handling, bounded: the harness stops driving a call form after its FIRST overrun (SKIPPED-FORM) and the whole stream after 6
+    # (SKIPPED-STREAM); at most 3 overruns are confirmed, each by running that case ALONE in a fresh process with 25 times the budget
+    # (2 s CPU; 7 s for the long-sequence kinds); a confirmed one is a failing input `does-not-return`.  Skipped / unconfirmed cases are
+    # listed as not executed: they are never a pass.
+    if rc == 0 and len(iout) == len(cases):
+        alltmo = [i for i, o in enumerate(iout) if o == "TIMEOUT"]
+        came_back_forms = []
+        for i in alltmo[:3]:
+            ln = cases[i]["line"].replace("fork 400 ", "fork 2000 ", 1)
+            rc2, o2, _ = vf.run_lines(himpl, ln + "\n", timeout=300, args=["%d" % (LIMIT_MS * 25), "solo"])
+            if rc2 == 0 and len(o2) == 1 and o2[0] != "TIMEOUT":
+                iout[i] = o2[0]
+                came_back_forms.append(i)
+        for i in alltmo[3:]:
+            iout[i] = "UNCONFIRMED-TIMEOUT"
+        if came_back_forms:
+            # the first-stage budget was too short for these: give every case the harness skipped another chance with the long budget
+            sk = [i for i, o in enumerate(iout) if o.startswith("SKIPPED") or o == "UNCONFIRMED-TIMEOUT"]
+            rc2, o2, _ = vf.run_lines(himpl, "".join(cases[i]["line"] + "\n" for i in sk), timeout=900, args=["%d" % (LIMIT_MS * 25)])
+            if rc2 == 0 and len(o2) == len(sk):
+                for i, o in zip(sk, o2):
+                    iout[i] = o if o != "TIMEOUT" else "UNCONFIRMED-TIMEOUT"
+        nskip = sum(1 for o in iout if o.startswith("SKIPPED") or o == "UNCONFIRMED-TIMEOUT")
+        if alltmo or nskip:
+            chk.cov["hang_handling"] = {"first_stage_overruns": len(alltmo), "confirmed_alone_with_25x_budget": sum(1 for i in alltmo[:3] if iout[i] == "TIMEOUT"),
+                                        "returned_with_25x_budget": len(came_back_forms), "cases_not_executed_after_an_overrun": nskip,
+                                        "first_stage_budget_ms_cpu": LIMIT_MS, "long_sequence_kinds_budget_ms_cpu": LIMIT_MS + 5000}
+        if nskip:
+            inconclusive(chk, "%d cases were not executed: their call form (or the stream) was switched off after an overrun; they are not counted as passed" % nskip)
     if rc != 0 or len(iout) != len(cases):
         bad = cases[len(iout)]["line"] if len(iout) < len(cases) else ""
         chk.broke("implementation harness failed (rc=%s, %d/%d lines); next case: %s" % (rc, len(iout), len(cases), bad), ierr)
@@ -1101,6 +1110,7 @@ def main(tier, replay=None):
     ncorr = 0
     dist = {}
     riiseed_cache = {}
+    nskipped = 0
     forms = {}
     gfqx_second = []
     for i, c in enumerate(cases):
@@ -1119,6 +1129,9 @@ def main(tier, replay=None):
         def fail(site, klass, expected, detail=""):
             fails.append((site, klass, expected, detail))
         mcmp = None         # (impl canonical text, model text) to compare
+        if out.startswith("SKIPPED") or out == "UNCONFIRMED-TIMEOUT":
+            nskipped += 1
+            continue
         try:
             if fam == "edge":
                 t = RINGS[c["ring"]]
@@ -1183,8 +1196,9 @@ def main(tier, replay=None):
             elif out.startswith("NONREPRO"):
                 fail(fam + ": same seed, two runs", sc, "identical sequences", "two generators built with the same seed differ")
             elif out == "TIMEOUT":
-                site = {"ring": "nonzerorandom(GivRandom)", "poly": "Poly1Dom::random(GivRandom)"}.get(fam, fam + " draw")
-                fail(site, "does not terminate; " + sc, "a value within %d ms" % LIMIT_MS)
+                site = {"ring": "nonzerorandom(GivRandom)" if str(c.get("op", "")).startswith("nz") else "ring %s (GivRandom)" % c.get("op"),
+                        "poly": "Poly1Dom::random(GivRandom)", "rm": "RecInt::rand(rmint<K,%s>)" % {0: "MGI", 1: "MGA", 2: "rint"}.get(c.get("mg"), "?")}.get(fam, fam + " draw")
+                fail(site, "does-not-return; " + sc, "a value within %d ms of CPU time (confirmed alone with 25 times that budget)" % LIMIT_MS)
                 if mout[i] is not None and mout[i] != "NONE":
                     mcmp = ("TIMEOUT", mout[i])
             elif out == "ASSIGNED-DIFFERS":
@@ -1598,7 +1612,7 @@ def main(tier, replay=None):
         gsess.close()
     # floor on what was actually compared: a run that stays below it (tooling trouble) says so; it is not a pass of those streams
     nthm = len(res.get("theorems", []))
-    floor = {"cases_judged_by_the_oracle": len(cases), "correspondence_comparisons": ncorr, "correspondence_floor": int(0.97 * len(cases)),
+    floor = {"cases_judged_by_the_oracle": len(cases) - nskipped, "cases_not_executed": nskipped, "correspondence_comparisons": ncorr, "correspondence_floor": int(0.97 * len(cases)),
              "theorems_in_Properties": nthm, "print_assumptions_reports": len(res.get("assumptions", {})), "theorems_floor": 70}
     missed = []
     if ncorr < floor["correspondence_floor"]:
